@@ -1,5 +1,74 @@
+// falcon.rs hook: native replay entry points for the key / signature codecs and verify (engine R).
 #![allow(dead_code, unused_imports)]
+use super::*;
+
 #[cfg(not(kani))]
-pub(crate) fn dispatch(_a: &[String]) -> Option<String> {
-    None
+fn hexd(s: &str) -> Vec<u8> {
+    if s == "-" {
+        return vec![];
+    }
+    hex::decode(s).expect("hex")
+}
+
+#[cfg(not(kani))]
+fn parse_n<const N: usize>(what: &str, bytes: &[u8]) -> String {
+    fn show<T>(r: Result<T, FalconDeserializationError>, f: impl Fn(&T) -> Vec<u8>) -> String {
+        match r {
+            Ok(x) => format!("Ok {}", hex::encode(f(&x))),
+            Err(e) => format!("Err {:?}", e),
+        }
+    }
+    match what {
+        "PublicKey" => show(PublicKey::<N>::from_bytes(bytes), |x| x.to_bytes()),
+        "SecretKey" => show(SecretKey::<N>::from_bytes(bytes), |x| x.to_bytes()),
+        "Signature" => show(Signature::<N>::from_bytes(bytes), |x| x.to_bytes()),
+        _ => "UNKNOWN-TYPE".to_string(),
+    }
+}
+
+#[cfg(not(kani))]
+fn verify_n<const N: usize>(msg: &[u8], sig: &[u8], pk: &[u8]) -> String {
+    let sig = match Signature::<N>::from_bytes(sig) {
+        Ok(s) => s,
+        Err(e) => return format!("SigErr {:?}", e),
+    };
+    let pk = match PublicKey::<N>::from_bytes(pk) {
+        Ok(p) => p,
+        Err(e) => return format!("PkErr {:?}", e),
+    };
+    format!("{}", verify::<N>(msg, &sig, &pk))
+}
+
+#[cfg(not(kani))]
+pub(crate) fn dispatch(a: &[String]) -> Option<String> {
+    match a[0].as_str() {
+        // parse <type> <N> <hex>  ->  "Ok <re-encoded hex>" | "Err <variant>"
+        "parse" => {
+            let b = hexd(&a[3]);
+            Some(match a[2].as_str() {
+                "512" => parse_n::<512>(&a[1], &b),
+                "1024" => parse_n::<1024>(&a[1], &b),
+                _ => "BAD-N".to_string(),
+            })
+        }
+        // verify <N> <msg hex> <sig hex> <pk hex>  ->  true | false | SigErr.. | PkErr..
+        "verify" => {
+            let (m, s, p) = (hexd(&a[2]), hexd(&a[3]), hexd(&a[4]));
+            Some(match a[1].as_str() {
+                "512" => verify_n::<512>(&m, &s, &p),
+                "1024" => verify_n::<1024>(&m, &s, &p),
+                _ => "BAD-N".to_string(),
+            })
+        }
+        // field_roundtrip <width> <int>: serialize then deserialize one secret-key field
+        "field_decode" => {
+            let bits: Vec<bool> = a[1].chars().map(|c| c == '1').collect();
+            let bv: BitVec = bits.into_iter().collect();
+            Some(match SecretKey::<512>::deserialize_field_element(&bv) {
+                Ok(f) => format!("Ok {}", f.value()),
+                Err(e) => format!("Err {:?}", e),
+            })
+        }
+        _ => None,
+    }
 }
